@@ -335,7 +335,13 @@ fn batch_check(rules: &[String], docs: &[String], evals: &mut u64) -> Result<Opt
 }
 
 fn batch_case(u: &mut Choices, sz: Size) -> CaseResult {
-    let doc = gen_cfn_doc(u, &sz);
+    let mut doc = gen_cfn_doc(u, &sz);
+    // multi-word keys in several naming conventions, queried in yet another one
+    let mut sz = sz;
+    sz.alt_case = u.chance(1, 2);
+    if sz.alt_case {
+        add_case_families(u, &mut doc);
+    }
     // one rule file: --structured merges the rules of all rule files into one report per data
     // file (judged by C09), so pairs are only comparable per rule file
     let nr = 1;
@@ -343,7 +349,11 @@ fn batch_case(u: &mut Choices, sz: Size) -> CaseResult {
     let nd = u.range(2, 3);
     let mut docs = vec![doc.to_json()];
     for _ in 1..nd {
-        docs.push(super::c02::vary_doc(u, &doc, &sz).to_json());
+        let mut d = super::c02::vary_doc(u, &doc, &sz);
+        if sz.alt_case && u.chance(1, 2) {
+            add_case_families(u, &mut d);
+        }
+        docs.push(d.to_json());
     }
     let rot = u.below(nd);
     docs.rotate_left(rot);
@@ -354,7 +364,7 @@ fn batch_case(u: &mut Choices, sz: Size) -> CaseResult {
             CaseResult::Pass(Info {
                 nontrivial: distinct >= 2,
                 key: hash_case(&[&rules.join("\n--\n"), &docs.join("\n")]),
-                classes: vec![format!("batch:rule-files:{}", nr), format!("batch:data-files:{}", nd), format!("batch:entries:{}", n)],
+                classes: vec![format!("batch:rule-files:{}", nr), format!("batch:data-files:{}", nd), format!("batch:entries:{}", n), format!("batch:key-conventions:{}", sz.alt_case)],
                 evals,
                 sample: Some(json!({"rules": rules, "docs": docs})),
             })
